@@ -25,7 +25,7 @@ import zlib
 
 from sim import factory
 from sim import xtce_family as xf
-from sim.kernel import SimRaw, World
+from sim.kernel import HarnessBug, library_exception, SimRaw, World
 from sim.procs import in_pristine_child
 from sim.runner import Outcome
 
@@ -105,10 +105,18 @@ def baseline_in_pristine_child(xml_bytes, pkts):
     def job():
         with warnings.catch_warnings():
             warnings.simplefilter("ignore")
-            d = XtcePacketDefinition.from_xtce(io.BytesIO(xml_bytes))
-        return (xf.fingerprint(d), decode_all(d, pkts))
+            try:
+                d = XtcePacketDefinition.from_xtce(io.BytesIO(xml_bytes))
+            except Exception as e:      # noqa: BLE001  (the library call, and only the library call)
+                library_exception(e)
+                return ("load_error", f"{type(e).__name__}: {e}")
+        return ("loaded", xf.fingerprint(d), decode_all(d, pkts))
     res = in_pristine_child(job, wall_s=100, raise_errors=False)
-    return ("ok", res[1][0], res[1][1]) if res[0] == "ok" else ("error", res[1], None)
+    if res[0] != "ok":
+        # anything else that went wrong in the child is harness code failing, never "the document does not load"
+        raise HarnessBug("baseline child failed outside the library call: " + str(res[1]))
+    r = res[1]
+    return ("ok", r[1], r[2]) if r[0] == "loaded" else ("error", r[1], None)
 
 
 def mutate_bad(kind, doc, rd, ch, w):
@@ -161,10 +169,17 @@ def same_rendering_first(xml_bytes, prefix):
     def job():
         with warnings.catch_warnings():
             warnings.simplefilter("ignore")
-            d = XtcePacketDefinition.from_xtce(io.BytesIO(xml_bytes), xtce_ns_prefix=prefix)
-        return full_view(d)
+            try:
+                d = XtcePacketDefinition.from_xtce(io.BytesIO(xml_bytes), xtce_ns_prefix=prefix)
+            except Exception as e:      # noqa: BLE001
+                library_exception(e)
+                return ("load_error", f"{type(e).__name__}: {e}")
+        return ("loaded", full_view(d))
     res = in_pristine_child(job, wall_s=100, raise_errors=False)
-    return ("ok", res[1]) if res[0] == "ok" else ("error", res[1])
+    if res[0] != "ok":
+        raise HarnessBug("same-bytes-first child failed outside the library call: " + str(res[1]))
+    r = res[1]
+    return ("ok", r[1]) if r[0] == "loaded" else ("error", r[1])
 
 
 def run(ch, render=False):
@@ -220,21 +235,29 @@ def run(ch, render=False):
         plan.append(e)
 
     # ---- phase B: baselines, each in a child forked from the pristine state (nothing loaded yet) ----------
-    base = []
-    for i in range(n_docs):
-        res = baseline_in_pristine_child(canon[i], pkts[i])
-        base.append(res)
+    # (the canonical rendering names the XTCE namespace by the same URI as the rendering it is compared with: which URI a
+    # document uses is part of the document, not of its spelling; a rendering without any namespace is compared with the
+    # default one)
+    def buri_of(rd_):
+        return rd_["uri"] if rd_["ns"] != "none" else xf.XTCE_URI
+    base = {}
+    wanted = [(i, xf.XTCE_URI) for i in range(n_docs)] + [(e["di"], buri_of(e["rd"])) for e in plan if "rd" in e]
+    for (i, u) in wanted:
+        if (i, u) in base:
+            continue
+        res = baseline_in_pristine_child(canon[i] if u == xf.XTCE_URI else xf.render(docs[i], dict(xf.CANONICAL, uri=u)), pkts[i])
+        base[(i, u)] = res
         # (only the fingerprint of a loadable baseline goes into the event log: an error text may contain addresses)
         w.ev("baseline", "computed", i, res[0], zlib.crc32(repr(res[1]).encode()) if res[0] == "ok" else res[1].split(":")[0])
     # a document whose canonical rendering does not load as the first load has no definition to compare with; the
     # only thing the property then says is that it must not load under any other spelling or history either
-    unloadable = [b[0] != "ok" for b in base]
-    if any(unloadable):
+    unloadable = {ku: b[0] != "ok" for ku, b in base.items()}
+    if any(unloadable.values()):
         w.probe("baseline_unloadable")
     same_first = {}
     for e in plan:
         if e["op"] == "load_ok":
-            key = (e["di"], zlib.crc32(e["xml"]), e["prefix"])
+            key = (e["di"], zlib.crc32(e["xml"]), e["prefix"], buri_of(e["rd"]))
             if key not in same_first:
                 same_first[key] = same_rendering_first(e["xml"], e["prefix"])
             e["key"] = key
@@ -251,9 +274,10 @@ def run(ch, render=False):
 
     def judge(i, defn, what, rd_desc, key):
         fp = xf.fingerprint(defn)
-        if fp != base[i][1]:
+        bl = base[(i, key[3])]
+        if fp != bl[1]:
             # locate the first difference for the message
-            a, b = repr(fp), repr(base[i][1])
+            a, b = repr(fp), repr(bl[1])
             j = 0
             while j < min(len(a), len(b)) and a[j] == b[j]:
                 j += 1
@@ -270,7 +294,7 @@ def run(ch, render=False):
             return False
         fv = full_view(defn)        # taken before decoding, as in the baseline child
         dec = decode_all(defn, pkts[i])
-        if dec != base[i][2]:
+        if dec != bl[2]:
             out.fail("decode_differs", f"{what}: probe packets decode differently from the load-it-first baseline "
                                        f"({rd_desc})", "decode_differs")
             return False
@@ -335,12 +359,12 @@ def run(ch, render=False):
                             w.probe("chain_prefix_default_none")
                         if rd != xf.CANONICAL:
                             judged_noncanon = True
-                        if unloadable[di]:
+                        if unloadable[(di, buri_of(rd))]:
                             if err is None:
                                 out.fail("loads_only_in_some_spellings",
                                          f"operation {opi}: {rd_desc} via {via} loads, but the canonical rendering (prefix xtce, "
                                          f"compact, no comments) of the same document fails as the first load of a pristine "
-                                         f"process with {base[di][1]}", "loads_only_in_some_spellings")
+                                         f"process with {base[(di, buri_of(rd))][1]}", "loads_only_in_some_spellings")
                                 break
                             loaded.append(None)
                             prev_bad = None
